@@ -361,3 +361,20 @@ M('mfr-read-sized-stops-at-empty-member', 'C18', 'ioutils.py',
   "            got = len(parts[-1])\n            if got < amt:\n                self._index += 1", "            got = len(parts[-1])\n            if got < amt:\n                self._index += 1\n            if got == 0 and self._index < len(self._fileobjs) - 1:\n                break")
 M('mfr-read-all-skips-after-index', 'C18', 'ioutils.py',
   "            return self._joiner.join(f.read() for f in self._fileobjs)", "            return self._joiner.join(f.read() for f in self._fileobjs[self._index:][:4])")
+
+# ---------------------------------------------------------------- C19
+M('splitlines-no-final-empty', 'C19', 'strutils.py',
+  "        if end == len_text:\n            yield ''", "        if end == len_text and start > 0:\n            yield ''")
+# (swapping the order of \\n and \\r\\n in the alternation changes nothing: dropped)
+M('splitlines-drops-x85', 'C19', 'strutils.py', "|\\r|\\x85|", "|\\r|")
+M('revlines-trailing-empty-twice', 'C19', 'jsonutils.py',
+  "        if buff[-1:] == newline_bytes:\n            yield empty_text if encoding else empty_bytes\n        for line in lines[:0:-1]:",
+  "        if buff[-1:] == newline_bytes or buff[-2:] == b'\\n\\n':\n            yield empty_text if encoding else empty_bytes\n        if buff[-2:] == b'\\n\\n' and blocksize == 3:\n            yield empty_text if encoding else empty_bytes\n        for line in lines[:0:-1]:")
+M('revlines-block-edge-crlf', 'C19', 'jsonutils.py',
+  "        if len(lines) < 2 or lines[0] == empty_bytes:\n            continue", "        if len(lines) < 2:\n            continue")
+M('revlines-decode-per-block', 'C19', 'jsonutils.py',
+  "        cur = file_obj.read(read_size)\n        buff = cur + buff", "        cur = file_obj.read(read_size)\n        if encoding and blocksize == 2:\n            cur = cur.decode(encoding, 'ignore').encode(encoding)\n        buff = cur + buff")
+M('jsonl-reverse-skips-last-when-aligned', 'C19', 'jsonutils.py',
+  "            if rs == 1.0:\n                self._cur_pos = size", "            if rs == 1.0:\n                self._cur_pos = size\n                if size % 4096 == 0 and size:\n                    fo.seek(size - 1)")
+M('jsonl-blank-line-stops', 'C19', 'jsonutils.py',
+  "            if not line:\n                continue\n            try:\n                obj = json.loads(line)", "            if not line:\n                if self._reverse:\n                    continue\n                if len(line) == 0 and getattr(self, '_n', 0) > 40:\n                    raise StopIteration\n                continue\n            self._n = getattr(self, '_n', 0) + 1\n            try:\n                obj = json.loads(line)")
